@@ -22,6 +22,8 @@ Post == CASE E.o = "recv"   -> Recv(C, E.m)
           [] E.o = "rmcb"   -> RmById(C, E.id)          \* removal by callback: each registered callback is its own function
           [] E.o = "rmcrit" -> RmByCriteria(C, E.dev, E.vec, E.el, E.ty)
           [] E.o = "tick"   -> RunTasks(C)
+          [] E.o = "recv2"  -> LET C1 == Recv(C, E.m)  C2 == Recv(C1, E.m2)         \* one message on each of the client's two connections
+                               IN [C2 EXCEPT !.evs = C1.evs \o @, !.calls = C1.calls \o @]
           [] E.o = "edit"   -> Edit(C, E.dev, E.vec, E.el, E.x)
           [] E.o = "submit" -> Submit(C, E.dev, E.vec)
           [] E.o = "recvbad" -> Fresh(C)        \* an ill-formed BLOB update (declared size # payload): rejected as a whole
@@ -29,7 +31,7 @@ CanonV(vs) == {[dev |-> vs[i].dev, name |-> vs[i].name, kind |-> vs[i].kind, st 
 CanonE(es) == [i \in DOMAIN es |-> Ev(es[i].ty, es[i].dev, es[i].vec, es[i].el, es[i].old, es[i].new)]
 CanonC(cs) == [i \in DOMAIN cs |-> <<cs[i][1], Ev(cs[i][2].ty, cs[i][2].dev, cs[i][2].vec, cs[i][2].el, cs[i][2].old, cs[i][2].new), cs[i][3]>>]
 ObsMirror == [vecs |-> [i \in DOMAIN E.obs.vecs |-> E.obs.vecs[i]]]
-Hist == LET base == IF E.o = "recv" /\ E.m.t = "def" THEN ResetVec(last, E.m.dev, E.m.vec) ELSE last
+Hist == LET base == IF E.o \in {"recv", "recv2"} /\ E.m.t = "def" THEN ResetVec(last, E.m.dev, E.m.vec) ELSE last
         IN ChainStep(base, CanonE(E.obs.evs), 1)
 MirrorOK(Q) == /\ CanonV(Q.vecs) = CanonV(E.obs.vecs)
                /\ Range(Q.devs) = Range(E.obs.devs)
